@@ -245,16 +245,16 @@ Proof.
   unfold parse_bitmap_into, ser_bitmap. cbn [bm_unk]. rewrite app_nil_r.
   rewrite tokenize_ser_len.
   2:{ unfold toks_bitmap. cbn [bm_words bm_rank bm_select].
-      repeat apply Forall_app; repeat split; apply canon_tk_packed; try tag_ok_tac; assumption. }
+      apply Forall_app; split; [|apply Forall_app; split];
+        apply canon_tk_packed; try tag_ok_tac; assumption. }
   unfold toks_bitmap. cbn [bm_words bm_rank bm_select].
-  rewrite !fold_opt_app.
   (* words *)
   assert (E1 : fold_opt step_bitmap (tk_packed 20 ws) empty_bitmap = Some (mkBitmap ws [] [] [])).
   { unfold tk_packed. destruct ws as [|w ws']; [reflexivity|].
     set (wl := w :: ws') in *.
     cbn [fold_opt step_bitmap mk_bytes]. change (bm_is_rep 20) with true. cbv iota.
     rewrite unpack_payload by (apply forallb_u64_lt; exact Hw). reflexivity. }
-  rewrite E1.
+  rewrite fold_opt_app, E1. cbv beta iota.
   assert (E2 : fold_opt step_bitmap (tk_packed 30 (map u64_of_int32 rs)) (mkBitmap ws [] [] []) = Some (mkBitmap ws rs [] [])).
   { unfold tk_packed. destruct rs as [|r rs']; [reflexivity|].
     set (rl := r :: rs') in *. change (map u64_of_int32 rl) with (u64_of_int32 r :: map u64_of_int32 rs') at 1.
@@ -264,7 +264,7 @@ Proof.
     unfold bm_rep. change (30 =? 20) with false. change (30 =? 30) with true. cbv iota.
     cbn [bm_words bm_rank bm_select bm_unk app].
     rewrite map_int32_roundtrip by exact Hr. reflexivity. }
-  rewrite E2.
+  rewrite fold_opt_app, E2. cbv beta iota.
   unfold tk_packed. destruct ss as [|s ss']; [reflexivity|].
   set (sl := s :: ss') in *. change (map u64_of_int32 sl) with (u64_of_int32 s :: map u64_of_int32 ss') at 1.
   cbv iota. change (u64_of_int32 s :: map u64_of_int32 ss') with (map u64_of_int32 sl).
@@ -273,4 +273,236 @@ Proof.
   unfold bm_rep. change (40 =? 20) with false. change (40 =? 30) with false. cbv iota.
   cbn [bm_words bm_rank bm_select bm_unk app].
   rewrite map_int32_roundtrip by exact Hs. reflexivity.
+Qed.
+
+(* closed comparisons of field numbers *)
+Ltac red_tags :=
+  repeat match goal with
+         | |- context [N.eqb (Npos ?a) (Npos ?b)] =>
+           let r := eval vm_compute in (N.eqb (Npos a) (Npos b)) in
+           change (N.eqb (Npos a) (Npos b)) with r
+         end;
+  cbn [orb andb negb]; cbv iota.
+
+(* ---- VLenArray --------------------------------------------------------------------- *)
+Theorem parse_vlen_ser : forall a,
+  wf_vlen a = true -> parse_vlen_into empty_vlen (ser_vlen a) = Some a.
+Proof.
+  intros [n e pos f by_ pre unk] H. unfold wf_vlen in H.
+  cbn [vl_n vl_eltcnt vl_position vl_fixed vl_bytes vl_presence vl_unk] in H.
+  apply andb_true_iff in H. destruct H as [H Hu].
+  apply andb_true_iff in H. destruct H as [H Hlby].
+  apply andb_true_iff in H. destruct H as [H Hlpre].
+  apply andb_true_iff in H. destruct H as [H Hlpos].
+  apply andb_true_iff in H. destruct H as [H Hwpre].
+  apply andb_true_iff in H. destruct H as [H Hwpos].
+  apply andb_true_iff in H. destruct H as [H Hf].
+  apply andb_true_iff in H. destruct H as [Hn He].
+  apply nil_bytes_nil in Hu. subst unk.
+  unfold parse_vlen_into, ser_vlen. cbn [vl_unk]. rewrite app_nil_r.
+  rewrite tokenize_ser_len.
+  2:{ unfold toks_vlen. cbn [vl_n vl_eltcnt vl_position vl_fixed vl_bytes vl_presence].
+      apply Forall_app; split; [apply canon_tk_int32; tag_ok_tac|].
+      apply Forall_app; split; [apply canon_tk_int32; tag_ok_tac|].
+      apply Forall_app; split; [apply canon_tk_msg; [tag_ok_tac|exact Hlpos]|].
+      apply Forall_app; split; [apply canon_tk_int32; tag_ok_tac|].
+      apply Forall_app; split; [apply canon_tk_bytes; [tag_ok_tac|exact Hlby]|].
+      apply canon_tk_msg; [tag_ok_tac|exact Hlpre]. }
+  unfold toks_vlen. cbn [vl_n vl_eltcnt vl_position vl_fixed vl_bytes vl_presence].
+  assert (E1 : fold_opt step_vlen (tk_int32 10 n) empty_vlen = Some (mkVlen n 0 None 0 [] None [])).
+  { unfold tk_int32. destruct (n =? 0)%Z eqn:Ez; [apply Z.eqb_eq in Ez; subst; reflexivity|].
+    cbn [fold_opt step_vlen mk_var]. red_tags. rewrite int32_roundtrip by exact Hn. reflexivity. }
+  rewrite fold_opt_app, E1. cbv beta iota.
+  assert (E2 : fold_opt step_vlen (tk_int32 11 e) (mkVlen n 0 None 0 [] None []) = Some (mkVlen n e None 0 [] None [])).
+  { unfold tk_int32. destruct (e =? 0)%Z eqn:Ez; [apply Z.eqb_eq in Ez; subst; reflexivity|].
+    cbn [fold_opt step_vlen mk_var]. red_tags. rewrite int32_roundtrip by exact He. reflexivity. }
+  rewrite fold_opt_app, E2. cbv beta iota.
+  assert (E3 : fold_opt step_vlen (tk_msg ser_bitmap 20 pos) (mkVlen n e None 0 [] None []) = Some (mkVlen n e pos 0 [] None [])).
+  { unfold tk_msg. destruct pos as [b|]; [|reflexivity].
+    cbn [fold_opt step_vlen mk_bytes]. red_tags. cbn [vl_position or_empty_bitmap].
+    rewrite parse_bitmap_ser by exact Hwpos. reflexivity. }
+  rewrite fold_opt_app, E3. cbv beta iota.
+  assert (E4 : fold_opt step_vlen (tk_int32 23 f) (mkVlen n e pos 0 [] None []) = Some (mkVlen n e pos f [] None [])).
+  { unfold tk_int32. destruct (f =? 0)%Z eqn:Ez; [apply Z.eqb_eq in Ez; subst; reflexivity|].
+    cbn [fold_opt step_vlen mk_var]. red_tags. rewrite int32_roundtrip by exact Hf. reflexivity. }
+  rewrite fold_opt_app, E4. cbv beta iota.
+  assert (E5 : fold_opt step_vlen (tk_bytes 30 by_) (mkVlen n e pos f [] None []) = Some (mkVlen n e pos f by_ None [])).
+  { unfold tk_bytes. destruct by_ as [|x r]; [reflexivity|].
+    cbn [fold_opt step_vlen mk_bytes]. red_tags. reflexivity. }
+  rewrite fold_opt_app, E5. cbv beta iota.
+  unfold tk_msg. destruct pre as [b|]; [|reflexivity].
+  cbn [fold_opt step_vlen mk_bytes]. red_tags. cbn [vl_presence or_empty_bitmap].
+  rewrite parse_bitmap_ser by exact Hwpre. reflexivity.
+Qed.
+
+(* ---- Slim ---------------------------------------------------------------------------- *)
+Theorem parse_slim_ser : forall s,
+  wf_slim s = true -> parse_slim (ser_slim s) = Some s.
+Proof.
+  intros [big short nt inn sb tab ip lp lv unk] H. unfold wf_slim in H.
+  cbn [s_bigcnt s_shortsize s_nodetype s_inners s_shortbm s_shorttable s_innerpref s_leafpref s_leaves s_unk] in H.
+  apply andb_true_iff in H. destruct H as [H Hu].
+  apply andb_true_iff in H. destruct H as [H Hllv].
+  apply andb_true_iff in H. destruct H as [H Hllp].
+  apply andb_true_iff in H. destruct H as [H Hlip].
+  apply andb_true_iff in H. destruct H as [H Hwlv].
+  apply andb_true_iff in H. destruct H as [H Hwlp].
+  apply andb_true_iff in H. destruct H as [H Hwip].
+  apply andb_true_iff in H. destruct H as [H Hltab].
+  apply andb_true_iff in H. destruct H as [H Htab].
+  apply andb_true_iff in H. destruct H as [H Hlsb].
+  apply andb_true_iff in H. destruct H as [H Hlinn].
+  apply andb_true_iff in H. destruct H as [H Hlnt].
+  apply andb_true_iff in H. destruct H as [H Hwsb].
+  apply andb_true_iff in H. destruct H as [H Hwinn].
+  apply andb_true_iff in H. destruct H as [H Hwnt].
+  apply andb_true_iff in H. destruct H as [Hbig Hshort].
+  apply nil_bytes_nil in Hu. subst unk.
+  unfold parse_slim, parse_slim_into, ser_slim. cbn [s_unk]. rewrite app_nil_r.
+  rewrite tokenize_ser_len.
+  2:{ unfold toks_slim.
+      cbn [s_bigcnt s_shortsize s_nodetype s_inners s_shortbm s_shorttable s_innerpref s_leafpref s_leaves].
+      apply Forall_app; split; [apply canon_tk_int32; tag_ok_tac|].
+      apply Forall_app; split; [apply canon_tk_int32; tag_ok_tac|].
+      apply Forall_app; split; [apply canon_tk_msg; [tag_ok_tac|exact Hlnt]|].
+      apply Forall_app; split; [apply canon_tk_msg; [tag_ok_tac|exact Hlinn]|].
+      apply Forall_app; split; [apply canon_tk_msg; [tag_ok_tac|exact Hlsb]|].
+      apply Forall_app; split; [apply canon_tk_packed; [tag_ok_tac|exact Hltab]|].
+      apply Forall_app; split; [apply canon_tk_msg; [tag_ok_tac|exact Hlip]|].
+      apply Forall_app; split; [apply canon_tk_msg; [tag_ok_tac|exact Hllp]|].
+      apply canon_tk_msg; [tag_ok_tac|exact Hllv]. }
+  unfold toks_slim.
+  cbn [s_bigcnt s_shortsize s_nodetype s_inners s_shortbm s_shorttable s_innerpref s_leafpref s_leaves].
+  assert (E1 : fold_opt step_slim (tk_int32 11 big) empty_slim = Some (mkSlim big 0 None None None [] None None None [])).
+  { unfold tk_int32. destruct (big =? 0)%Z eqn:Ez; [apply Z.eqb_eq in Ez; subst; reflexivity|].
+    cbn [fold_opt step_slim mk_var]. red_tags. rewrite int32_roundtrip by exact Hbig. reflexivity. }
+  rewrite fold_opt_app, E1. cbv beta iota.
+  assert (E2 : fold_opt step_slim (tk_int32 14 short) (mkSlim big 0 None None None [] None None None [])
+               = Some (mkSlim big short None None None [] None None None [])).
+  { unfold tk_int32. destruct (short =? 0)%Z eqn:Ez; [apply Z.eqb_eq in Ez; subst; reflexivity|].
+    cbn [fold_opt step_slim mk_var]. red_tags. rewrite int32_roundtrip by exact Hshort. reflexivity. }
+  rewrite fold_opt_app, E2. cbv beta iota.
+  assert (E3 : fold_opt step_slim (tk_msg ser_bitmap 20 nt) (mkSlim big short None None None [] None None None [])
+               = Some (mkSlim big short nt None None [] None None None [])).
+  { unfold tk_msg. destruct nt as [b|]; [|reflexivity].
+    cbn [fold_opt step_slim mk_bytes]. unfold s_is_bitmap, s_get_bitmap, s_set_bitmap. red_tags.
+    cbn [s_nodetype or_empty_bitmap].
+    rewrite parse_bitmap_ser by exact Hwnt. reflexivity. }
+  rewrite fold_opt_app, E3. cbv beta iota.
+  assert (E4 : fold_opt step_slim (tk_msg ser_bitmap 30 inn) (mkSlim big short nt None None [] None None None [])
+               = Some (mkSlim big short nt inn None [] None None None [])).
+  { unfold tk_msg. destruct inn as [b|]; [|reflexivity].
+    cbn [fold_opt step_slim mk_bytes]. unfold s_is_bitmap, s_get_bitmap, s_set_bitmap. red_tags.
+    cbn [s_inners or_empty_bitmap].
+    rewrite parse_bitmap_ser by exact Hwinn. reflexivity. }
+  rewrite fold_opt_app, E4. cbv beta iota.
+  assert (E5 : fold_opt step_slim (tk_msg ser_bitmap 31 sb) (mkSlim big short nt inn None [] None None None [])
+               = Some (mkSlim big short nt inn sb [] None None None [])).
+  { unfold tk_msg. destruct sb as [b|]; [|reflexivity].
+    cbn [fold_opt step_slim mk_bytes]. unfold s_is_bitmap, s_get_bitmap, s_set_bitmap. red_tags.
+    cbn [s_shortbm or_empty_bitmap].
+    rewrite parse_bitmap_ser by exact Hwsb. reflexivity. }
+  rewrite fold_opt_app, E5. cbv beta iota.
+  assert (E6 : fold_opt step_slim (tk_packed 32 tab) (mkSlim big short nt inn sb [] None None None [])
+               = Some (mkSlim big short nt inn sb tab None None None [])).
+  { unfold tk_packed. destruct tab as [|t tab']; [reflexivity|].
+    set (tl := t :: tab') in *.
+    cbn [fold_opt step_slim mk_bytes]. unfold s_is_bitmap. red_tags.
+    rewrite unpack_payload by (apply forallb_u32_lt; exact Htab).
+    unfold s_add_shorttable.
+    cbn [s_bigcnt s_shortsize s_nodetype s_inners s_shortbm s_shorttable s_innerpref s_leafpref s_leaves s_unk app].
+    rewrite map_uint32_roundtrip by exact Htab. reflexivity. }
+  rewrite fold_opt_app, E6. cbv beta iota.
+  assert (E7 : fold_opt step_slim (tk_msg ser_vlen 38 ip) (mkSlim big short nt inn sb tab None None None [])
+               = Some (mkSlim big short nt inn sb tab ip None None [])).
+  { unfold tk_msg. destruct ip as [a|]; [|reflexivity].
+    cbn [fold_opt step_slim mk_bytes]. unfold s_is_bitmap, s_is_vlen, s_get_vlen, s_set_vlen. red_tags.
+    cbn [s_innerpref or_empty_vlen].
+    rewrite parse_vlen_ser by exact Hwip. reflexivity. }
+  rewrite fold_opt_app, E7. cbv beta iota.
+  assert (E8 : fold_opt step_slim (tk_msg ser_vlen 58 lp) (mkSlim big short nt inn sb tab ip None None [])
+               = Some (mkSlim big short nt inn sb tab ip lp None [])).
+  { unfold tk_msg. destruct lp as [a|]; [|reflexivity].
+    cbn [fold_opt step_slim mk_bytes]. unfold s_is_bitmap, s_is_vlen, s_get_vlen, s_set_vlen. red_tags.
+    cbn [s_leafpref or_empty_vlen].
+    rewrite parse_vlen_ser by exact Hwlp. reflexivity. }
+  rewrite fold_opt_app, E8. cbv beta iota.
+  unfold tk_msg. destruct lv as [a|]; [|reflexivity].
+  cbn [fold_opt step_slim mk_bytes]. unfold s_is_bitmap, s_is_vlen, s_get_vlen, s_set_vlen. red_tags.
+  cbn [s_leaves or_empty_vlen].
+  rewrite parse_vlen_ser by exact Hwlv. reflexivity.
+Qed.
+
+(* ---- proto.Size ------------------------------------------------------------------------ *)
+Lemma ser_toks_app : forall a b, ser_toks (a ++ b) = ser_toks a ++ ser_toks b.
+Proof. intros. unfold ser_toks. rewrite map_app, concat_app. reflexivity. Qed.
+
+Lemma blen_nil : blen [] = 0.
+Proof. reflexivity. Qed.
+
+Lemma ser_toks_one : forall t, ser_toks [t] = ser_tok t.
+Proof. intro t. unfold ser_toks. cbn [map concat]. apply app_nil_r. Qed.
+
+Lemma blen_mk_bytes : forall tag p, blen (ser_tok (mk_bytes tag p)) = sz_lenfield tag (blen p).
+Proof.
+  intros. unfold mk_bytes, sz_lenfield. cbn [ser_tok]. rewrite !blen_app.
+  unfold tag_bytes. rewrite !size_varint_length. lia.
+Qed.
+
+Lemma blen_mk_var : forall tag v, blen (ser_tok (mk_var tag v)) = size_varint (tag * 8) + size_varint v.
+Proof.
+  intros. unfold mk_var. cbn [ser_tok]. rewrite blen_app. unfold tag_bytes.
+  rewrite N.add_0_r. rewrite !size_varint_length. reflexivity.
+Qed.
+
+Lemma blen_packed_payload : forall vs, blen (packed_payload vs) = sum_N (map size_varint vs).
+Proof.
+  induction vs as [|v vs IH]; [reflexivity|].
+  unfold packed_payload in *. cbn [map concat sum_N]. rewrite blen_app, IH, size_varint_length. reflexivity.
+Qed.
+
+Lemma blen_tk_packed : forall tag vs, blen (ser_toks (tk_packed tag vs)) = sz_packed tag vs.
+Proof.
+  intros tag vs. unfold tk_packed, sz_packed. destruct vs as [|v r]; [reflexivity|].
+  rewrite ser_toks_one, blen_mk_bytes, blen_packed_payload. reflexivity.
+Qed.
+
+Lemma blen_tk_int32 : forall tag z, blen (ser_toks (tk_int32 tag z)) = sz_int32 tag z.
+Proof.
+  intros tag z. unfold tk_int32, sz_int32. destruct (z =? 0)%Z; [reflexivity|].
+  rewrite ser_toks_one, blen_mk_var. reflexivity.
+Qed.
+
+Lemma blen_tk_bytes : forall tag p, blen (ser_toks (tk_bytes tag p)) = sz_bytes tag p.
+Proof.
+  intros tag p. unfold tk_bytes, sz_bytes. destruct p as [|x r]; [reflexivity|].
+  rewrite ser_toks_one, blen_mk_bytes. reflexivity.
+Qed.
+
+Lemma blen_tk_msg : forall {M} (ser : M -> list byte) (size : M -> N) tag o,
+  (forall m, blen (ser m) = size m) -> blen (ser_toks (tk_msg ser tag o)) = sz_msg size tag o.
+Proof.
+  intros M ser size tag o H. unfold tk_msg, sz_msg. destruct o as [m|]; [|reflexivity].
+  rewrite ser_toks_one, blen_mk_bytes, H. reflexivity.
+Qed.
+
+Theorem size_bitmap_length : forall b, blen (ser_bitmap b) = size_bitmap b.
+Proof.
+  intro b. unfold ser_bitmap, toks_bitmap, size_bitmap.
+  rewrite blen_app, !ser_toks_app, !blen_app, !blen_tk_packed. lia.
+Qed.
+
+Theorem size_vlen_length : forall a, blen (ser_vlen a) = size_vlen a.
+Proof.
+  intro a. unfold ser_vlen, toks_vlen, size_vlen.
+  rewrite blen_app, !ser_toks_app, !blen_app, !blen_tk_int32, blen_tk_bytes.
+  rewrite !(blen_tk_msg ser_bitmap size_bitmap) by apply size_bitmap_length. lia.
+Qed.
+
+Theorem size_slim_length : forall s, blen (ser_slim s) = size_slim s.
+Proof.
+  intro s. unfold ser_slim, toks_slim, size_slim.
+  rewrite blen_app, !ser_toks_app, !blen_app, !blen_tk_int32, blen_tk_packed.
+  rewrite !(blen_tk_msg ser_bitmap size_bitmap) by apply size_bitmap_length.
+  rewrite !(blen_tk_msg ser_vlen size_vlen) by apply size_vlen_length. lia.
 Qed.
